@@ -270,6 +270,47 @@ def run_slice(job: dict) -> dict:
                 finally:
                     world.shutdown()
             res["evaluations"] += 1
+    # ---- several instances of an old simulator that share one module-level meta dict: every instance is
+    # adapted like the first one ------------------------------------------------------------------------------
+    n = 0
+    for version in (None, "1", "2.0", "2.2", "2.3"):
+        n += 1
+        if n % W != w:
+            continue
+        del stubs.CALLS[:]
+        stubs.SHARED_META.clear()
+        with warnings.catch_warnings():
+            warnings.simplefilter("ignore")
+            world = mosaik.World({"Stub": {"python": "vlab.stubs:SharedMetaV2"}}, skip_greetings=True)
+            try:
+                ents = []
+                for k2 in range(3):
+                    C["shared_meta_instances"] += 1
+                    try:
+                        f = world.start("Stub", sim_id=f"X{k2}", cfg={"version": version, "type": "time-based"})
+                        ents.append(f.M())
+                    except Exception as e:  # noqa: BLE001
+                        viol({"kind": "rejected_but_valid", "version": version, "transport": "inproc_v3sig",
+                              "type": "time-based", "instance_with_shared_meta": k2 + 1,
+                              "error": f"{type(e).__name__}: {e}"[:200], "_ek": "none"})
+                if len(ents) == 3:
+                    world.connect(ents[0], ents[1], ("a", "b"))
+                    world.run(until=until, print_progress=False)
+            finally:
+                world.shutdown()
+        for k2 in range(3):
+            calls = [c for c in stubs.CALLS if c[0] == f"X{k2}"]
+            steps = [c for c in calls if c[1] == "step"]
+            want = 3 if vlist(version) >= [3] else 2
+            bad = [c for c in steps if len([a for a in c[2] if a != "<not passed>"]) != want]
+            sd = [c for c in calls if c[1] == "setup_done"]
+            if bad:
+                viol({"kind": "step_arity", "version": version, "transport": "inproc_v3sig", "type": "time-based",
+                      "instance_with_shared_meta": k2 + 1, "args": len(bad[0][2]), "expected": want, "_ek": "none"})
+            if bool(sd) != (vlist(version) >= [2, 2]):
+                viol({"kind": "setup_done_" + ("sent_to_old_simulator" if sd else "not_sent"), "version": version,
+                      "transport": "inproc_v3sig", "type": "time-based", "instance_with_shared_meta": k2 + 1, "_ek": "none"})
+        res["evaluations"] += 1
     # ---- several starts from ONE sim_config entry with an explicit api_version: every start is checked ------
     n = 0
     for explicit, reported in (("2.2", ["2.2", "3.0", "2.2"]), ("3.0", ["2.2", "2.2", "3.0"]), ("2.2", ["3.0", "3.0"]),
@@ -389,7 +430,7 @@ def evidence(m, tier, seed):
                 "process, raw-socket stub process without mosaik_api_v3} x type present/absent; old stubs failing "
                 "inside step() (ValueError/TypeError/KeyError); extra methods (names that are substrings of API "
                 "method names) called on old stubs; several starts from one sim_config entry with an explicit "
-                "api_version; accepted stubs are "
+                "api_version; several instances sharing one module-level meta dict; accepted stubs are "
                 "connected both ways to a v3 peer and run; oracle = version table (step arity, setup_done, "
                 "time_resolution in init, type default, start accepted/rejected); differential 3.0 vs old version: "
                 "same (time, inputs) sequence for the stub and same data for its peer; distinct_nontrivial = "
